@@ -116,7 +116,7 @@ def _info(t):
     return fm.Info(time=t, grid=fm.NoGrid(), units="m")
 
 
-def _rules(refs, t):
+def _rules(refs, t, tag=None):
     rules = []
     for n, (k, i) in enumerate(refs):
         cls = fm.tools.FromInput if k == "in" else fm.tools.FromOutput
@@ -124,6 +124,8 @@ def _rules(refs, t):
         rules.append(cls(name) if n == 0 else cls(name, ["units"]))
     if not refs:
         rules += [fm.tools.FromValue("grid", fm.NoGrid()), fm.tools.FromValue("units", "m")]
+    if tag is not None:
+        rules.append(fm.tools.FromValue("tag", tag))   # a later rule writing a metadata field of the composed info
     rules.append(fm.tools.FromValue("time", t))
     return rules
 
@@ -143,14 +145,14 @@ class _NodeBase:
             else:
                 self.inputs.add(name=f"In{i}")
                 if x["info"]["k"] == "rule":
-                    in_rules[f"In{i}"] = _rules(x["info"]["refs"], self.t0)
+                    in_rules[f"In{i}"] = _rules(x["info"]["refs"], self.t0, f"{self.idx}.in{i}" if x["info"].get("tag") else None)
         for o, y in enumerate(cs["outs"]):
             if y["info"]["k"] == "declared":
                 self.outputs.add(name=f"Out{o}", time=self.t0, grid=fm.NoGrid(), units="m")
             else:
                 self.outputs.add(name=f"Out{o}")
                 if y["info"]["k"] == "rule":
-                    out_rules[f"Out{o}"] = _rules(y["info"]["refs"], self.t0)
+                    out_rules[f"Out{o}"] = _rules(y["info"]["refs"], self.t0, f"{self.idx}.out{o}" if y["info"].get("tag") else None)
         self.create_connector(
             pull_data=[f"In{i}" for i, x in enumerate(cs["ins"]) if x["pull"]],
             in_info_rules=in_rules, out_info_rules=out_rules, cache=cs["cache"])
@@ -250,6 +252,7 @@ def run_impl(spec, order, link_order=None):
     comps = spec["comps"]
     nodes = [(TNode if cs.get("time", True) else CNode)(c, cs).with_name(f"N{c}") for c, cs in enumerate(comps)]
     log, monitor, pushes = [], [], {}
+    first_seen = {}   # (component, slot) -> (content when the exchange completed, the Info object)
     bound = call_bound(spec)
 
     def wrap_connect(node):
@@ -261,6 +264,11 @@ def run_impl(spec, order, link_order=None):
             ping = node.status == fm.ComponentStatus.INITIALIZED
             before = _counts(node.connector)
             orig(t)
+            con = node.connector
+            for nm, v in list(con.in_infos.items()) + list(con.out_infos.items()):
+                key = (node.idx, nm)
+                if v is not None and key not in first_seen:
+                    first_seen[key] = (_info_repr(v), v)
             after = _counts(node.connector)
             log.append([node.idx, node.status.name, after - before])
             monitor.append({"comp": node.idx, "status": node.status.name, "ping": ping,
@@ -307,7 +315,10 @@ def run_impl(spec, order, link_order=None):
             outcome, err = "error", err_class(e)
     except Exception as e:  # noqa
         outcome, err, msg = "error", err_class(e), f"{type(e).__name__}: {str(e)[:200]}"
-    res = {"outcome": outcome, "err": err, "names": names, "msg": msg, "log": log, "monitor": monitor, "comps": []}
+    drift = [{"slot": list(k), "when_exchanged": r0, "at_the_end": _info_repr(obj)}
+             for k, (r0, obj) in first_seen.items() if _info_repr(obj) != r0]
+    res = {"outcome": outcome, "err": err, "names": names, "msg": msg, "log": log, "monitor": monitor, "comps": [],
+           "info_drift": drift}
     for n in nodes:
         con = n.connector
         cs = n.cs
@@ -377,6 +388,9 @@ def oracle(spec, order, impl):
     if impl["outcome"] == "error":
         return ("connect() raises nothing but the circular-coupling error",
                 {"raised": impl["err"], "message": impl["msg"], "stuck_expected": stuck}, "foreign-error")
+    if impl.get("info_drift"):
+        return ("metadata that has been exchanged for a slot does not change afterwards",
+                impl["info_drift"][0], "exchanged-info-changed")
     for m in impl["monitor"]:
         if m["status"] == "CONNECTED" and not m["complete"]:
             return ("a component is never CONNECTED while one of its exchanges is outstanding", m, "connected-incomplete")
@@ -468,7 +482,10 @@ def gen_info(rng, c_nin, c_nout, self_kind, self_idx, declared_w=40):
         pool.append([self_kind, self_idx])
     if k == "rule":
         n = rng.choice([0, 1, 1, 2]) if pool else 0
-        return {"k": "rule", "refs": rng.sample(pool, min(n, len(pool)))}
+        r = {"k": "rule", "refs": rng.sample(pool, min(n, len(pool)))}
+        if rng.random() < 0.4:
+            r["tag"] = True
+        return r
     n = rng.choice([0, 0, 1, 2]) if pool else 0
     return {"k": "provided", "when": rng.sample(pool, min(n, len(pool)))}
 
